@@ -34,6 +34,10 @@ htp_status_t htp_tx_state_response_line(htp_tx_t *tx){ n_stub++; n_line++; retur
 htp_status_t htp_tx_state_response_start(htp_tx_t *tx){ n_stub++; n_start++; C.out_state=htp_connp_RES_LINE; tx->response_progress=HTP_RESPONSE_LINE; return stub_rc(); }
 htp_status_t htp_tx_state_request_complete(htp_tx_t *tx){ n_stub++; n_reqcomplete++; return HTP_OK; }
 htp_tx_t *htp_connp_tx_create(htp_connp_t *c){ n_stub++; n_create++; return in_bool()?&TX:NULL; }
+/* C10: the only door to a new transaction is htp_connp_tx_create (which enforces max_tx); a state function that builds one directly bypasses the limit */
+static unsigned n_direct_create;
+htp_tx_t *htp_tx_create(htp_connp_t *c){ n_direct_create++; return &TX; }
+void htp_connp_in_reset(htp_connp_t *c){ n_stub++; }
 void htp_conn_track_outbound_data(htp_conn_t *conn, size_t len, const htp_time_t *t){ }
 htp_status_t htp_hook_run_all(htp_hook_t *hook, void *user_data){ if(hook==(htp_hook_t*)&CONN){ n_trailer++; n_stub++; } else { n_recv++; htp_tx_data_t *d=user_data; check_span(d->data,d->len); } return stub_rc(); }
 static int rec_header(htp_connp_t *c, unsigned char *d, size_t l){ n_stub++; n_hdr++; check_span(d,l); return stub_rc(); }
@@ -42,7 +46,11 @@ static int rec_parse_line(htp_connp_t *c){ n_stub++; assert(c->out_tx->response_
 void *htp_table_get_c(const htp_table_t *t, const char *k){ if(k[0]=='e') return has_exp?&H_EXP:NULL; if(k[0]=='t') return has_te?&H_TE:NULL; if(k[8]=='l') return has_cl?&H_CL:NULL; return has_ct?&H_CT:NULL; }
 size_t htp_table_size(const htp_table_t *t){ return 0; }
 void *htp_table_get_index(const htp_table_t *t, size_t i, bstr **k){ return NULL; }
-void htp_table_clear(htp_table_t *t){ }
+static htp_table_t T_REQ, T_RES; static unsigned n_clear_res, n_clear_other;
+void htp_table_clear(htp_table_t *t){ if(t==&T_RES) n_clear_res++; else n_clear_other++; }
+/* the transaction layer's own "forget the headers" helpers: the response side may only ever forget RESPONSE headers */
+htp_status_t htp_tx_res_set_headers_clear(htp_tx_t *tx){ n_clear_res++; return HTP_OK; }
+htp_status_t htp_tx_req_set_headers_clear(htp_tx_t *tx){ n_clear_other++; return HTP_OK; }
 void *htp_list_array_get(const htp_list_array_t *l, size_t idx){ return in_bool()?&TX:NULL; }
 
 #define S_IDLE 1
@@ -103,7 +111,7 @@ void harness(void){
     TX.request_progress=in_range(HTP_REQUEST_NOT_STARTED,HTP_REQUEST_COMPLETE);
     TX.response_progress=in_range(HTP_RESPONSE_NOT_STARTED,HTP_RESPONSE_COMPLETE);
     TX.response_status_number=(int)in_range(0,700); TX.response_protocol_number=(int)in_range(0,101)-1;
-    TX.response_message_len=(int64_t)in_size_le(1000); TX.seen_100continue=in_range(0,2);
+    TX.response_message_len=(int64_t)in_size_le(1000); TX.seen_100continue=in_range(0,2); TX.request_headers=&T_REQ; TX.response_headers=&T_RES;
     C.out_body_data_left=(int64_t)in_size_le(N+2); C.out_chunked_length=(int64_t)in_size_le(N+2); C.out_content_length=(int64_t)in_size_le(N+3);
     C.in_content_length=(int64_t)in_size_le(3); C.in_body_data_left=(int64_t)in_size_le(3);
     C.out_next_tx_index=in_size_le(5); C.out_data_other_at_tx_end=in_bool();
@@ -175,6 +183,7 @@ void harness(void){
     /* C09.G3: the response side never revives a request direction that has failed or was stopped */
     if(ist==HTP_STREAM_ERROR) assert(C.in_status==HTP_STREAM_ERROR);
     if(ist==HTP_STREAM_STOP) assert(C.in_status==HTP_STREAM_STOP);
+    assert(n_direct_create==0);      /* C10: no transaction is created behind htp_connp_tx_create's back */
 
 #if STATE==S_IDENTITY_CL
     { size_t avail=len-(size_t)ro, k=(size_t)left0<avail?(size_t)left0:avail;
@@ -205,6 +214,9 @@ void harness(void){
 #elif STATE==S_BODY_DETERMINE
     assert(ro1==ro && co1==co);
     if(rc==HTP_OK && C.out_state==htp_connp_RES_LINE){ assert(TX.response_status_number==100 && n_headers==0); }
+    /* C02: an interim response makes the parser forget the interim RESPONSE fields, once; nothing the request reported is touched */
+    assert(n_clear_other==0);
+    if(STATE==S_BODY_DETERMINE && rc==HTP_OK && C.out_state==htp_connp_RES_LINE) assert(n_clear_res==1);
     else if(rc!=HTP_ERROR || n_headers) { assert(n_headers==1); }
     /* C04/C05: EVERY interim 100 (no TE, no positive CL) restarts at the status line - a second one must not complete the transaction */
     { int early2 = (TX.request_method_number==HTP_M_CONNECT && TX.response_status_number>=200 && TX.response_status_number<=299);
